@@ -25,6 +25,10 @@ REPO = Path(os.environ.get("DASHLIVE_REPO", "/repo"))
 LEAN = VERIF / "lean"
 DRIVER = LEAN / ".lake" / "build" / "bin" / "driver"
 EVIDENCE = VERIF / "evidence"
+if "DASHLIVE_REPO" in os.environ and Path(os.environ["DASHLIVE_REPO"]).resolve() != Path("/repo"):
+    # a run against a scratch worktree (seeded change, mutation test) must not overwrite the
+    # evidence of the registered checks, which describe /repo
+    EVIDENCE = VERIF / "evidence" / "scratch"
 REPLAYS = VERIF / "replays"
 CORPUS = VERIF / "corpus"
 LEDGER = VERIF / "known_findings.json"
@@ -291,7 +295,7 @@ def write_replay(prop: str, seed: int, payload: dict) -> Path:
 def write_evidence(prop: str, tier: str, seed: int, proof: Optional[ProofReport],
                    channels: list[Channel], wall: float, violations: int,
                    trusted: list[str], assumptions: list[str], extra: dict | None = None) -> None:
-    EVIDENCE.mkdir(exist_ok=True)
+    EVIDENCE.mkdir(parents=True, exist_ok=True)
     evaluations = sum(c.evaluations for c in channels)
     nontrivial = sum(len(c.nontrivial) for c in channels)
     cov: dict[str, Any] = {
